@@ -13,6 +13,12 @@ def c37(c):
     binp = c.go_build('limits')
     res = c.harness(binp, 'replay', {'l': 2, 'qmax': 3, 'behaviours': behs}, timeout=900)
     c.absorb(res)
+    for mode, arg in (('burst', {'rounds': 150 if quick else 1500, 'l': 2}), ('timermode', {'qmax': 3, 'n': 2 if quick else 8})):
+        pr = c.harness(binp, mode, arg, timeout=600)
+        c.absorb(pr)
+        res['completed'] += pr['completed']
+        res['executed'] += pr['executed']
+        c.cov[mode + '_probe'] = {'executed': pr['executed'], 'counters': pr['counters']}
     c.cov['traces_validated_against_impl'] = res['completed']
     c.cov['evaluations'] = res['executed']
     c.cov['distinct_nontrivial'] = res['nontrivial']
